@@ -108,6 +108,28 @@ def search_pose(seed, n, classes=None, methods=None, thresh=2e-6):
             for k in range(n):
                 a = rand_pose(rng, cname, mild=(k % 2 == 0))
                 b = rand_pose(rng, cname if kind == "pose" else POINT[cname].__name__, mild=(k % 2 == 0)) if kind else None
+                # special operands: zero translation (pure rotation), identity, and a pose that has been modified in
+                # place after an earlier call (normalize() sign flip / component write): no stale per-object state
+                r = rng.random()
+                if b is not None and r < 0.25:
+                    nb = len(np.asarray(b.position)) if hasattr(b, "position") else 0
+                    vals = np.asarray(b).copy()
+                    vals[:nb] = 0.0
+                    b = type(b)(vals[:2], vals[2]) if isinstance(b, PoseSE2) else type(b)(vals[:3], vals[3:]) if isinstance(b, PoseSE3) else type(b)(vals)
+                if r > 0.7:
+                    try:
+                        getattr(a, mname)(b) if b is not None else getattr(a, mname)()
+                    except Exception:
+                        pass
+                    if isinstance(a, PoseSE3):
+                        if rng.random() < 0.5:
+                            a[3:] = -np.asarray(a[3:])
+                            a.normalize()
+                        else:
+                            a[3:] = np.asarray(rng.unit_quat())
+                    else:
+                        a[0] = a[0] + 1.25
+                    stats["history_probes"] = stats.get("history_probes", 0) + 1
                 if cname == "PoseSE2":
                     # the real-valued angle coordinate is discontinuous on the wrap; the property excludes it
                     angs = [a[2]] + ([a[2] + b[2], a[2] - b[2]] if kind == "pose" else [])
